@@ -12,7 +12,7 @@ from __future__ import annotations
 import json
 import random
 
-from .. import core, par
+from .. import compile_tie, core, par
 from ..flows import canon_flow, compile_flow_sheet, compile_index, rename_uuids_by_first_occurrence, rows_to_csv
 from ..gen import sheets as G
 from ..gen import sugar as S
@@ -70,7 +70,7 @@ def worker(args):
     rng = random.Random(seed)
     drv = core.Driver()
     stats = {}
-    bad, keys = [], []
+    bad, keys, ties = [], [], []
     sample = None
     pairs = 0
 
@@ -99,6 +99,12 @@ def worker(args):
             continue
         verdict, detail = compare(drv, rows, twin)
         bump(verdict)
+        # T2: the Lean model of the parser's block structure (Rpft/Sugar.lean evItems) vs the traced real parser
+        tres, treal, ttable = compile_tie.trace_structure(G.HEADERS, rows)
+        tv, td = compile_tie.compare_structure(drv, rows, tres, treal, ttable)
+        bump("structure_tie." + tv)
+        if tv == "disagree":
+            ties.append({"csv": rows_to_csv(G.HEADERS, rows), "detail": td})
         if verdict == "both_rejected":
             continue
         u = S.uses_sugar(rows)
@@ -114,7 +120,8 @@ def worker(args):
             bad.append({"rows": rows, "detail": detail})
         else:
             pairs += detail.get("pairs", 0)
-    return {"stats": stats, "bad": bad[:10], "keys": keys, "sample": sample, "pairs": pairs}
+    ties.sort(key=lambda t: len(t["csv"]))
+    return {"stats": stats, "bad": bad[:10], "keys": keys, "sample": sample, "pairs": pairs, "ties": ties[:3], "nties": len(ties)}
 
 
 def shrink(drv, rows):
@@ -227,6 +234,8 @@ def run(ck: core.Check):
             ck.case(key, nontrivial=True)
         if r["sample"] and len(ck.samples) < 2:
             ck.samples.append(r["sample"])
+        for t in r["ties"]:
+            ck.tie_break("Lean model of the parser's block structure and the real _parse_block perform different events", t)
         for b in r["bad"]:
             if len(ck.violations) >= 2:
                 ck.violation(b["detail"].get("what", "sugared and desugared differ") + " (not shrunk)", {"rows": b["rows"], "detail": b["detail"], "pad": "#" * 4000})
